@@ -271,7 +271,7 @@ class Scratch:
             return
         shutil.rmtree(self.path, ignore_errors=True)
 
-    def inject(self, obligations, known):
+    def inject(self, obligations, known, attrs=False):
         """Append harness modules (generated = contract source + wrappers) to the scratch copy."""
         inj = json.loads((KANI_DIR / "inject.json").read_text())
         by_unit = {}
@@ -302,6 +302,8 @@ class Scratch:
                 src = src.replace(m.group(0), fn(REPO))
             wrappers = []
             for ob in obs:
+                if (ob.contract or ob.stub_verified) and not attrs:
+                    continue  # needs the injected attribute contracts; generated only in the attr run
                 regions = [k["region"] for k in known if k["obligation"] == ob.id and k["record"].startswith("open:")]
                 w, names = gen_wrappers(ob, regions)
                 wrappers.append(w)
@@ -313,9 +315,11 @@ class Scratch:
             self._append(info["file"],
                          f'\n#[cfg(any(kani, verif_replay))]\n#[path = "{gen}/{unit}.rs"]\npub(crate) mod verif_kani_{unit};\n')
             self.modpaths[unit] = (info["module"] + "::" if info["module"] else "") + f"verif_kani_{unit}"
-        # attribute contracts
-        for ac in inj.get("attr_contracts", []):
-            self._attr(ac)
+        # attribute contracts (only for the run that proves / uses them: an injected `requires` is
+        # also asserted at the call sites of plain harnesses, which must not be disturbed)
+        if attrs:
+            for ac in inj.get("attr_contracts", []):
+                self._attr(ac)
         return harness_index
 
     def _append(self, rel, text):
